@@ -67,9 +67,18 @@ class ULongLong(int):
     """an attribute value held as QVariant(qulonglong)"""
 
 
+class NullStr(str):
+    """a null QString (QString()), as opposed to an empty one (QString(""))"""
+
+
+NULLSTR = NullStr("")
+
+
 def enc_value(v):
     if v is None:
         return "N"
+    if isinstance(v, NullStr):
+        return "Q"
     if isinstance(v, bool):
         return "B %d" % (1 if v else 0)
     if isinstance(v, UInt):
